@@ -28,6 +28,10 @@ import warnings
 # modules - one it issues itself, or a deprecated construct it uses - becomes an exception in every check; the
 # harness's and Hypothesis's own warnings are left alone.
 warnings.filterwarnings("error", module=r"dali(\.|$)")
+# ... and so does a warning the library issues on behalf of its caller (stacklevel=2 lands in the harness): the warning
+# categories a library uses for that are errors wherever they surface.  (ResourceWarning and friends stay as they are.)
+for _cat in (UserWarning, RuntimeWarning, DeprecationWarning, FutureWarning, PendingDeprecationWarning, SyntaxWarning):
+    warnings.filterwarnings("error", category=_cat, module=r"(harness|props|__main__)(\.|$)")
 
 VERIF = os.path.dirname(os.path.dirname(os.path.abspath(__file__)))
 REPO = os.path.abspath(os.environ.get("VERIF_REPO", "/repo"))
